@@ -322,6 +322,36 @@ def reject(rep, prog, rule):
     else:
         rep.ok(rule, "dimensions", f.loc, "all %d map_image calls are dominated by both "
                "comparisons" % len(calls))
+    # success without mapping: an Ok(()) that is not the continuation of a map_image call must at
+    # least come after the comparison of the dimensions (an early "nothing to do" return placed
+    # before the validation accepts mismatched empty images)
+    from ..cfg import Dom
+    dom = Dom(f)
+    mapped = {c.bb for c in calls}
+    n_ok = 0
+    for b, blk in enumerate(f.blocks):
+        if blk["c"]:
+            continue
+        for j, st in enumerate(blk["s"]):
+            if not (st[0] == "a" and st[1] == [0] and st[2][0] == "agg" and st[2][1] == "adt"
+                    and str(st[2][2]).endswith("result::Result") and st[2][3][1] == "Ok"):
+                continue
+            n_ok += 1
+            if any(dom.dominates(m, b) for m in mapped):
+                rep.ok(rule, "ok-return|after-mapping|%d" % n_ok, st[3], "Ok after a map_image call")
+                continue
+            facts = sym.facts_at(b)
+            txt = [(fmt(cc), v) for cc, v in facts]
+            okw = any("width(src_image)" in s_ and "width(dst_image)" in s_ for s_, v in txt)
+            okh = any("height(src_image)" in s_ and "height(dst_image)" in s_ for s_, v in txt)
+            if okw and okh:
+                rep.unk(rule, "ok-return|without-mapping", st[3], "Ok(()) without a map_image call, after "
+                        "the comparison of the dimensions; whether the pixel types were validated is not decided")
+            else:
+                rep.bad(rule, "ok-return|unvalidated", st[3],
+                        "PixelComponentMapper::map returns Ok(()) on a path that neither maps the image "
+                        "nor compared the dimensions of source and destination (conditions on the path: %s): "
+                        "mismatched images are accepted" % "; ".join("%s is %s" % (s_[:60], v) for s_, v in txt[:4]))
 
 
 def run(rep, tier):
